@@ -28,6 +28,7 @@ ASSUMPTIONS = [
     "derived group ids compared as partitions",
 ]
 BUDGET = {"quick": (32, 10), "thorough": (None, 60)}
+EARLY = 6  # additional strata from 2005-2014 in the quick tier (all of them in the thorough tier)
 GEN = dict(mode="branch", max_households=4)
 
 
